@@ -253,6 +253,9 @@ func runC13(c *Ctx, r *Report) {
 	c13Fresh(c, r)
 	byteOrderDiscipline(c, r, "C13-R3-byte-order-use")
 	c13Immutable(c, r)
+	// a record is consumed with exactly the sizes its own definition lists (no pre-computed total, no
+	// truncated sum): otherwise the tail of one local type's record is read as headers of others
+	c02SkipBySize(c, r)
 }
 
 // byteOrderDiscipline: every multi-byte read in the functions that parse a data record uses the byte
@@ -469,6 +472,12 @@ func c13Slots(c *Ctx, r *Report) {
 			for _, ins := range b.Instrs {
 				st, ok := ins.(*ssa.Store)
 				if !ok {
+					continue
+				}
+				if fa, isFA := st.Addr.(*ssa.FieldAddr); isFA && fieldName(fa) == "defmsgs" && !c.isResetStore(st) {
+					// the whole table assigned at once while a file is being decoded
+					r.fail("C13-R2-slot-discipline", fmt.Sprintf("%s/table-store-%d", fn.Name(), idx), c.pos(st.Pos()), "the whole definition table is assigned in "+fn.Name()+", which runs while a file is being decoded: defining one local type drops the definitions of all the others, whose data records are then rejected (or decoded under nothing)")
+					idx++
 					continue
 				}
 				ia, ok := st.Addr.(*ssa.IndexAddr)
